@@ -760,6 +760,13 @@ fn spawn_response_loop(mut reader: BufReader<TcpStream>, inner: std::sync::Weak<
                     continue;
                 }
                 Err(err) => {
+                    // Shut the socket through the reader's own handle first:
+                    // `fail_all_pending` needs the writer mutex, which a caller
+                    // blocked in `write` (peer not reading) holds for as long as
+                    // the peer keeps the connection open. The shutdown makes
+                    // that write fail, so the mutex is released and every
+                    // waiter is failed promptly.
+                    let _ = reader.get_ref().shutdown(Shutdown::Both);
                     fail_all_pending(&inner, err);
                     break;
                 }
